@@ -1313,6 +1313,13 @@ def gen_jobs(ctx, scale=1.0, mode='run'):
         for n in (3, 4, 5):
             g = gdesc(_csr(n, graphs.structured(rng, 'dicycle', n)))
             jobs.append(_prop_job(rng, g, {}, weighted=True, order=None, n_iter=-1))
+        # disjoint directed cycles of lengths 3, 4, 6: the configurations come back only after 30 sweeps, the default
+        # n_iter = -1 stops after n + 1 = 14
+        es, off = [], 0
+        for ln in (3, 4, 6):
+            es += [(off + i, off + (i + 1) % ln) for i in range(ln)]
+            off += ln
+        jobs.append(_prop_job(rng, gdesc(_csr(13, es)), {}, weighted=True, order=None, n_iter=-1))
         jobs.append(_prop_job(rng, gdesc(_csr(3, [(0, 1), (1, 2), (2, 0)])), {'labels': mk_seed('arr', [0, 1, 2])}))
         jobs.append(_prop_job(rng, gdesc(_csr(3, [(0, 1), (1, 0), (1, 2), (2, 1)])), {'labels': mk_seed('arr', [2, 0, 1])}))
 
